@@ -20,8 +20,8 @@ Lemma creach_antitone : forall b1 b2 s x,
 Proof.
   intros b1 b2 s x Hb H. induction H.
   - constructor.
-  - eapply creach_step; eauto. destruct (smem n b2) eqn:E; [|reflexivity].
-    apply Hb in E. congruence.
+  - apply creach_step with (n := n); [exact IHcreach | | exact H1].
+    destruct (smem n b2) eqn:E; [|reflexivity]. apply Hb in E. congruence.
 Qed.
 
 Lemma creach_trans : forall blocked s p q,
@@ -29,7 +29,7 @@ Lemma creach_trans : forall blocked s p q,
 Proof.
   intros blocked s p q H1 H2. induction H2.
   - exact H1.
-  - eapply creach_step; eauto.
+  - apply creach_step with (n := n); assumption.
 Qed.
 
 (* ---------------- BFS ---------------- *)
